@@ -35,6 +35,8 @@ Record host := {
   h_cells : list (list Z * list value);       (* per upper-cased label: what a callCellValue listener hands to the setter, in order (VBlank = None) *)
   h_ranges : list value;                      (* what a callRangeValue listener hands to the setter, in order; [] = no listener *)
   h_registry : list (list Z);                 (* names of the built-ins (generated) *)
+  h_varset : list (list Z * list value);      (* per name: what a callVariable listener hands to the setter, in order *)
+  h_funset : list (list Z * list value);      (* per name: what a callFunction listener hands to the setter, in order *)
 }.
 
 Inductive event :=
@@ -87,8 +89,10 @@ Definition builtin (name : list Z) (args : list value) : option (res value) :=
   else None.
 
 (* ---------- the callbacks of hotxlfp/parser.py ---------- *)
+Definition handed_for (name : list Z) (l : list (list Z * list value)) : list value :=
+  match assoc_text name l with Some vs => vs | None => [] end.
 Definition call_function (h : host) (name : list Z) (args : list value) : res value * list event :=
-  let fire (v : value) := (ROk v, [EvFunction name args]) in
+  let fire (v : value) := (ROk (last_non_none (handed_for name (h_funset h)) v), [EvFunction name args]) in
   match assoc_text name (h_funs h) with
   | Some b =>
       match b with
@@ -111,13 +115,15 @@ Definition call_function (h : host) (name : list Z) (args : list value) : res va
 
 Definition predefined : list (list Z * value) :=
   [([84;82;85;69], VBool true); ([70;65;76;83;69], VBool false); ([78;85;76;76], VBlank)].
+(* self.variables.get(name, not_found); the listener's setter may replace it; still not_found -> #NAME? *)
+Fixpoint last_handed (vals : list value) (cur : option value) : option value :=
+  match vals with [] => cur | VBlank :: r => last_handed r cur | v :: r => last_handed r (Some v) end.
+Definition lookup_variable (h : host) (name : list Z) : option value :=
+  match assoc_text name (h_vars h) with Some v => Some v | None => assoc_text name predefined end.
 Definition call_variable (h : host) (name : list Z) : res value * list event :=
-  match assoc_text name (h_vars h) with
+  match last_handed (handed_for name (h_varset h)) (lookup_variable h name) with
   | Some v => (ROk v, [EvVariable name])
-  | None => match assoc_text name predefined with
-            | Some v => (ROk v, [EvVariable name])
-            | None => (RRaise ENAME, [EvVariable name])       (* the event is emitted before the check *)
-            end
+  | None => (RRaise ENAME, [EvVariable name])       (* the event is emitted before the check *)
   end.
 
 Definition upper_text (s : list Z) : list Z := map upper_ascii s.
